@@ -2,6 +2,7 @@ import WaVerif.Lemmas.C17Rv
 import WaVerif.Gen.C17Riscv
 import WaVerif.Lemmas.C17LaTable
 import WaVerif.Gen.C17Loong64
+import WaVerif.Lemmas.C17X64
 /-!
 # C17 — property theorems (native instruction encoders vs. specification decoders)
 
@@ -308,5 +309,22 @@ theorem la_table_rows_roundtrip (r : La.Row) (hr : r ∈ Gen.loong64Table) (hg :
     exact hre.1.1.1.1
   rw [hmn]; exact this
 end LoongArch
+
+/-! ## x86-64 (bonus: the modelled operand form `op reg, [base + disp]`) -/
+
+theorem x64_modrm_roundtrip (md reg rm : Nat) (h1 : md < 4) (h2 : reg < 8) (h3 : rm < 8) :
+    X64.unModrm (X64.modrm md reg rm) = (md, reg, rm) ∧ X64.modrm md reg rm < 256 := by
+  simp only [X64.unModrm, X64.modrm, Prod.mk.injEq]; refine ⟨⟨?_, ?_, ?_⟩, ?_⟩ <;> omega
+
+/-- `[REX] opcode ModRM [SIB] [disp8|disp32]` decodes back to operand size, both register numbers
+(REX.R / REX.B extension bits, SIB for rsp/r12, forced displacement for rbp/r13) and the displacement,
+for every register pair and every 32-bit displacement.  The model is tied to the real
+`x64.Encode(mov r, [base+disp])` bytes by the correspondence run. -/
+theorem x64_rm_decode_encode (opc w reg base : Nat) (d : Int) (ho : opc < 64 ∨ 80 ≤ opc) (hw : w < 2) (hr : reg < 16)
+    (hb : base < 16) (hd : -2147483648 ≤ d ∧ d ≤ 2147483647) :
+    X64.decodeRM opc (X64.encodeRM opc w reg base d) = some (w, reg, base, d) :=
+  X64.rm_decode_encode opc w reg base d ho hw hr hb hd
+
+example : X64.encodeRM 0x8b 1 9 12 (-129) = [0x4d, 0x8b, 0x8c, 0x24, 0x7f, 0xff, 0xff, 0xff] := by decide
 
 end WaVerif.C17
